@@ -6,7 +6,8 @@
 //   random <cfg> <out.ndjson> <steps>  seeded random linear execution (N <= 10, priorities 1..9)
 // cfg (text): "N p1..pN maxnodes cap alphabet"  alphabet = letters of n(ext) s(etprio) a(dd back) f(ront) c(ondition use)
 //             r(emove+re-add) t(ick) v(ictim: setprio on the last message only) x (a second, independent MessageMap with
-//             its own poll message is cleared and reloaded, alternately destroyed and recreated) R (reload of the main map:
+//             its own poll message is cleared and reloaded, alternately destroyed and recreated) p (replace: the definition of a message is read again with replace=true and a
+//             new priority -> MessageMap::add(..., replace) removes the old instance) R (reload of the main map:
 //             clear() + all definitions read again); setprio priorities follow the alphabet
 //             (random mode: 1..9; optional 6th argument = period in selections at which the last message's priority is
 //             toggled between 8 and 9, as two clients adjusting the same message would do).
@@ -77,12 +78,12 @@ struct Live {
   MessageMap* other;          // as MainLoop::m_newlyDefinedMessages: shares only the file-static g_lastPollOrder
   unsigned int otherOps;
   unsigned int lineNo;
-  string defLine(int i) const {
-    char b[128]; snprintf(b, sizeof b, "r%d,cir,m%d,,,08,b509,0d%02x00,,,UCH", cfg->prios[i], i + 1, i + 1); return b;
+  string defLine(int i, int prio = -1) const {
+    char b[128]; snprintf(b, sizeof b, "r%d,cir,m%d,,,08,b509,0d%02x00,,,UCH", prio < 0 ? cfg->prios[i] : prio, i + 1, i + 1); return b;
   }
-  bool readLine(const string& l) {
+  bool readLine(const string& l, bool replace = false) {
     std::istringstream is(l); vector<string> row; string e;
-    return map->readLineFromStream(&is, "p.csv", false, &lineNo, &row, &e, false, nullptr, nullptr) == RESULT_OK;
+    return map->readLineFromStream(&is, "p.csv", false, &lineNo, &row, &e, replace, nullptr, nullptr) == RESULT_OK;
   }
   Message* lookup(int i) { char b[16]; snprintf(b, sizeof b, "m%d", i + 1); return map->find("cir", b, "*", false); }
   explicit Live(const Cfg* c) : cfg(c), lineNo(0) {
@@ -131,9 +132,10 @@ static vector<Input> alphabet(const Cfg& c) {
     if (k == 'n') v.push_back({'n', 0, 0});
     else if (k == 't') v.push_back({'t', 0, 1});
     else if (k == 'x') v.push_back({'x', 0, 0});
+    else if (k == 'p') { for (int m = 1; m <= c.n; m++) for (int p : c.setPrios) v.push_back({'p', m, p}); }
     else if (k == 'R') v.push_back({'R', 0, 0});
     else if (k == 'v') { for (int p : c.setPrios) v.push_back({'s', c.n, p}); }   // priority changes of one victim (the last message) only
-    else for (int m = 1; m <= c.n; m++) {
+    else if (k != 'p' && k != 'v' && k != 'x' && k != 'R') for (int m = 1; m <= c.n; m++) {
       if (k == 's') { for (int p : c.setPrios) v.push_back({'s', m, p}); }
       else v.push_back({k, m, 0});
     }
@@ -142,11 +144,11 @@ static vector<Input> alphabet(const Cfg& c) {
 }
 static const char* kindName(char k) {
   switch (k) { case 'n': return "next"; case 's': return "setprio"; case 'a': return "addback"; case 'f': return "addfront";
-               case 'c': return "conduse"; case 'r': return "readd"; case 'x': return "otherclear"; case 'R': return "reload"; default: return "tick"; }
+               case 'c': return "conduse"; case 'r': return "readd"; case 'x': return "otherclear"; case 'R': return "reload"; case 'p': return "replace"; default: return "tick"; }
 }
 static char kindChar(const string& s) {
   if (s == "next") return 'n'; if (s == "setprio") return 's'; if (s == "addback") return 'a'; if (s == "addfront") return 'f';
-  if (s == "conduse") return 'c'; if (s == "readd") return 'r'; if (s == "otherclear") return 'x'; if (s == "reload") return 'R'; return 't';
+  if (s == "conduse") return 'c'; if (s == "readd") return 'r'; if (s == "otherclear") return 'x'; if (s == "reload") return 'R'; if (s == "replace") return 'p'; return 't';
 }
 
 static int apply(Live& L, const Input& in) {
@@ -177,6 +179,12 @@ static int apply(Live& L, const Input& in) {
       if (!L.readLine("r,cir,probe,,,08,b509,0dff00,,,UCH")) return 4;
       L.probe = L.map->find("cir", "probe", "*", false);
       return L.probe ? 0 : 5;
+    }
+    case 'p': {   // the daemon's path (define -r, reload of a file with the same key): the definition is read again with
+                  // replace=true; MessageMap::add removes (deletes) the instance with the same key/name and adds the new one
+      if (!L.readLine(L.defLine(in.m - 1, in.a), true)) return 2;
+      L.msgs[in.m - 1] = L.lookup(in.m - 1);
+      return L.msgs[in.m - 1] ? 0 : 3;
     }
     case 'r': {   // reload of one definition: remove (deletes the instance) and read the CSV line again
       L.map->remove(L.msgs[in.m - 1]);
@@ -260,7 +268,7 @@ static string keyOf(const Snap& s, int cap) {
   k << "n" << (nowIsMax ? 1 : 0);
   return k.str();
 }
-static int kindCode(char k) { switch (k) { case 'n': return 1; case 's': return 2; case 'a': return 3; case 'f': return 4; case 'c': return 5; case 'r': return 6; case 'x': return 8; case 'R': return 9; default: return 7; } }
+static int kindCode(char k) { switch (k) { case 'n': return 1; case 's': return 2; case 'a': return 3; case 'f': return 4; case 'c': return 5; case 'r': return 6; case 'x': return 8; case 'R': return 9; case 'p': return 10; default: return 7; } }
 static string edgeJson(const Input& in, int out, int to) {
   char b[96]; snprintf(b, sizeof b, "[%d,%d,%d,%d,%d]", kindCode(in.k), in.m, in.a, out, to); return b;
 }
@@ -325,25 +333,23 @@ static void expandInChild(const Cfg& cfg, const vector<Input>& sigma, const vect
   vector<string> res(sigma.size());
   auto record = [&](size_t i) { int out = apply(L, sigma[i]); Snap s = snap(L); return std::to_string(out) + "\t" + keyOf(s, cfg.cap) + "\t" + snapJson(s) + "\n"; };
   for (size_t i = 0; i < sigma.size(); i++) {
-    if (sigma[i].k == 't') { time_t keep = g_now; res[i] = record(i); g_now = keep; }
-    else if (sigma[i].k != 'n') {
-      int p[2]; if (pipe(p)) _exit(5);
-      pid_t g = fork();
-      if (g < 0) _exit(6);
-      if (g == 0) { close(p[0]); writeAll(p[1], record(i)); _exit(0); }
-      close(p[1]); res[i] = readAll(p[0]); close(p[0]);
-      int st; waitpid(g, &st, 0);
-      if (!WIFEXITED(st) || WEXITSTATUS(st) != 0) _exit(7);
-    }
+    if (sigma[i].k == 't') { time_t keep = g_now; res[i] = record(i); g_now = keep; continue; }
+    int p[2]; if (pipe(p)) _exit(5);
+    pid_t g = fork();
+    if (g < 0) _exit(6);
+    if (g == 0) { close(p[0]); writeAll(p[1], record(i)); _exit(0); }
+    close(p[1]); res[i] = readAll(p[0]); close(p[0]);
+    int st; waitpid(g, &st, 0);
+    if (WIFSIGNALED(st)) res[i] = "CRASH\n";           // the real code died on this input: recorded as an event
+    else if (!WIFEXITED(st) || WEXITSTATUS(st) != 0) _exit(7);
   }
-  for (size_t i = 0; i < sigma.size(); i++) if (sigma[i].k == 'n') res[i] = record(i);
   string all; for (const string& r : res) all += r;
   writeAll(fd, all);
 }
 
 static int cmdGraph(char** argv) {
   Cfg cfg = readCfg(argv[2]);
-  if (cfg.alpha.find_first_of("rxR") == string::npos) return cmdGraphRestore(cfg, argv[3]);   // those need exact re-execution
+  if (cfg.alpha.find_first_of("rxRp") == string::npos) return cmdGraphRestore(cfg, argv[3]);   // those need exact re-execution
   vector<Input> sigma = alphabet(cfg);
   std::map<string, int> seen;
   std::deque<int> queue;
@@ -359,7 +365,7 @@ static int cmdGraph(char** argv) {
     queue.push_back(1);
   }
   vf::Out o(argv[3]);
-  long edges = 0; bool capped = false; int maxDepth = 0;
+  long edges = 0, crashes = 0; bool capped = false; int maxDepth = 0;
   while (!queue.empty()) {
     int id = queue.front(); queue.pop_front();
     vector<int> path;
@@ -380,6 +386,11 @@ static int cmdGraph(char** argv) {
     stateOf[id].clear(); stateOf[id].shrink_to_fit();
     for (size_t i = 0; i < sigma.size(); i++) {
       if (!std::getline(rs, l)) { fprintf(stderr, "short result\n"); return 2; }
+      if (l == "CRASH") {   // edge with out = -99 that stays in the node: nothing can be said about the state after it
+        if (line.back() == ']') line += ',';
+        line += edgeJson(sigma[i], -99, id); edges++; crashes++;
+        continue;
+      }
       size_t t1 = l.find('\t'), t2 = l.find('\t', t1 + 1);
       int out = atoi(l.substr(0, t1).c_str());
       string key = l.substr(t1 + 1, t2 - t1 - 1), stj = l.substr(t2 + 1);
@@ -398,32 +409,53 @@ static int cmdGraph(char** argv) {
     }
     o.raw(line + "]}\n");    // BFS assigns ids in discovery order and expands in id order: lines are written in id order
   }
-  printf("{\"nodes\":%d,\"edges\":%ld,\"capped\":%s,\"depth\":%d,\"inputs\":%d,\"mode\":\"fork\"}\n", (int)seen.size(), edges, capped ? "true" : "false", maxDepth, (int)sigma.size());
+  printf("{\"nodes\":%d,\"edges\":%ld,\"capped\":%s,\"depth\":%d,\"inputs\":%d,\"mode\":\"fork\",\"crashes\":%ld}\n", (int)seen.size(), edges, capped ? "true" : "false", maxDepth, (int)sigma.size(), crashes);
   return 0;
 }
 
 // ---- linear executions ------------------------------------------------------------------------------------------
-static void chain(vf::Out& o, const Cfg& cfg, const vector<Input>& ins) {
-  Live L(&cfg);
-  int id = 1;
-  for (size_t i = 0; i <= ins.size(); i++) {
-    Snap s = snap(L);
-    string line = nodeHead(id, snapJson(s));
-    if (i < ins.size()) {
-      int out = apply(L, ins[i]);
-      line += edgeJson(ins[i], out, id + 1);
+// The execution runs in a forked child that writes node by node (head, then the edge once the input returned); if the
+// real code dies from a signal the parent closes the open node with an edge out = -99 ("crash in real code").
+static void chain(const char* path, const Cfg& cfg, const vector<Input>& ins) {
+  { vf::Out trunc(path); }
+  pid_t c = fork();
+  if (c < 0) { perror("fork"); exit(2); }
+  if (c == 0) {
+    FILE* f = fopen(path, "a"); if (!f) _exit(8);
+    Live L(&cfg);
+    int id = 1;
+    for (size_t i = 0; i <= ins.size(); i++) {
+      Snap s = snap(L);
+      string head = nodeHead(id, snapJson(s));
+      fputs(head.c_str(), f); fflush(f);
+      string rest;
+      if (i < ins.size()) { int out = apply(L, ins[i]); rest = edgeJson(ins[i], out, id + 1); }
+      rest += "]}\n";
+      fputs(rest.c_str(), f); fflush(f);
+      id++;
     }
-    o.raw(line + "]}\n");
-    id++;
+    fclose(f); _exit(0);
   }
+  int st; waitpid(c, &st, 0);
+  if (WIFSIGNALED(st)) {
+    std::ifstream in(path); std::stringstream ss; ss << in.rdbuf(); string all = ss.str();
+    size_t done = (size_t)std::count(all.begin(), all.end(), '\n');     // complete nodes = inputs that returned
+    size_t cut = all.rfind('\n'); all = cut == string::npos ? "" : all.substr(0, cut + 1);
+    // the open node is rewritten from its last complete predecessor's view: re-run is not possible, so close it by hand
+    std::ifstream in2(path); std::stringstream s2; s2 << in2.rdbuf(); string raw = s2.str();
+    string open = raw.substr(cut == string::npos ? 0 : cut + 1);
+    FILE* f = fopen(path, "w"); fputs(all.c_str(), f);
+    if (!open.empty() && done < ins.size()) { fputs(open.c_str(), f); fputs(edgeJson(ins[done], -99, (int)done + 1).c_str(), f); fputs("]}\n", f); }
+    fclose(f);
+    fprintf(stderr, "crash in real code at step %zu (signal %d)\n", done + 1, WTERMSIG(st));
+  } else if (!WIFEXITED(st) || WEXITSTATUS(st) != 0) { fprintf(stderr, "execution child failed st=%d\n", st); exit(2); }
 }
 static int cmdReplay(char** argv) {
   Cfg cfg = readCfg(argv[2]);
   std::ifstream in(argv[3]);
   vector<Input> ins; string k; int m, a;
   while (in >> k >> m >> a) ins.push_back({kindChar(k), m, a});
-  vf::Out o(argv[4]);
-  chain(o, cfg, ins);
+  chain(argv[4], cfg, ins);
   return 0;
 }
 static int cmdRandom(char** argv) {
@@ -440,15 +472,14 @@ static int cmdRandom(char** argv) {
     if (!pert.empty() && rng.below(1000) < (unsigned)pertPerMille) {
       char k = pert[rng.below((unsigned)pert.size())];
       int m = (k == 'x' || k == 'R') ? 0 : 1 + (int)rng.below((unsigned)cfg.n);
-      ins.push_back({k, m, k == 's' ? 1 + (int)rng.below(9) : 0});
+      ins.push_back({k, m, (k == 's' || k == 'p') ? 1 + (int)rng.below(9) : 0});
     } else if (cfg.alpha.find('t') != string::npos && rng.below(10) == 0) ins.push_back({'t', 0, 1});
     else {
       ins.push_back({'n', 0, 0});
       if (togglePeriod > 0 && ++sinceToggle >= togglePeriod) { sinceToggle = 0; togglePrio = 17 - togglePrio; ins.push_back({'s', cfg.n, togglePrio}); }
     }
   }
-  vf::Out o(argv[3]);
-  chain(o, cfg, ins);
+  chain(argv[3], cfg, ins);
   return 0;
 }
 
